@@ -147,6 +147,21 @@ class FakeSocket:
     def getpeername(self):
         return ('0.0.0.0', 0)
 
+    def getsockname(self):
+        return ('0.0.0.0', 0)
+
+    def getsockopt(self, *a):
+        return 0
+
+    def gettimeout(self):
+        return getattr(self, 'timeout', None)
+
+    def __enter__(self):
+        return self
+
+    def __exit__(self, *a):
+        self.close()
+
 
 class FakeNet:
     def __init__(self, hosts):
